@@ -1064,7 +1064,7 @@ func (p *CodeBuilder) fieldRef(x target.Expr, o *types.Struct, name string, src 
 	}
 	for i, n := 0, o.NumFields(); i < n; i++ {
 		fld := o.Field(i)
-		if fld.Name() == name {
+		if fld.Name() == name && p.allowAccess(fld.Pkg(), name) {
 			if p.rec != nil {
 				p.rec.Member(src, fld)
 			}
@@ -1400,7 +1400,7 @@ func setDenoted(expr target.Expr, denoted *target.Object) {
 }
 
 func (p *CodeBuilder) allowAccess(pkg *types.Package, name string) bool {
-	if !ast.IsExported(name) && pkg != nil && pkg.Path() != p.pkg.Path() {
+	if !ast.IsExported(name) && pkg != nil && p.pkg != nil && pkg.Path() != p.pkg.Path() {
 		return false
 	}
 	return true
